@@ -689,6 +689,7 @@ package parser
 
 //@ func (p *Parser) parseSwitchStatement
 //@   include ParseFrame
+//@   ensures [C16:operand-token] result3 == nil ==> (TokLoc(result0.Operand) && TokLoc(result0.Token))
 //@   loopinv [C18:switch-token] statement.Token == old(p.curToken)
 //@   loopinv [C06:slot-inv] resultImpData != nil && fresh(resultImpData) && ImpOK(resultImpData)
 //@   loopinv [C06:complete-inv] ImpSize(resultImpData) == holes - old(holes)
@@ -741,6 +742,8 @@ package parser
 
 //@ func (p *Parser) parseLeafBooleanExpression
 //@   include ParseFrame
+// the operand token names a real source line (it is what the line marker of the comparison is taken from; C16)
+//@   ensures [C16:operand-token] result2 == nil ==> TokLoc(result0.Operand)
 // an AutoVar leaf - with or without '!' - carries its command as preamble and compares a var (C11)
 //@   exit [C11:preamble] (result2 == nil && isAutoVar) ==> (result0 != nil && result0.Type == token.VAR && result0.PreambleStatement != nil && fresh(result0.PreambleStatement) && result0.Operand.Type == token.IDENT)
 //@   exit [C11:no-preamble] (result2 == nil && !isAutoVar) ==> (result0 != nil && result0.PreambleStatement == nil)
